@@ -1151,7 +1151,7 @@ def coq_check(chk):
 def emit_coq(tr, modname="GenRdtypes"):
     lines = [
         "(* GENERATED by tools/translate_rdtypes.py from %s - do not edit *)" % tr["repo"],
-        "From DV Require Import Base.Prelude Model.NameM Model.SchemaM Proofs.SchemaTable.",
+        "From DV Require Import Base.Prelude Model.NameM Model.SchemaM.",
         "Open Scope Z_scope.",
         "Definition table : list entry := [",
     ]
